@@ -193,6 +193,68 @@ pub fn run_enc_check(ctx: &Ctx, check: &EncCheck) -> Stats {
     if fw::should_stop() {
         return total;
     }
+    // ---- stride family: an ASCII run whose length straddles the 16-unit strides of the encoders'
+    // ASCII fast paths, then one character of each class, with capacities around the run length
+    let st = par_run(ctx, n_enc, |part, st| {
+        let enc = check.encs[part];
+        let algo = enc_algo_for(enc);
+        let mut alpha = hist_enc::alphabet(enc);
+        alpha.extend_from_slice(&[0xD800, 0xDC00]);
+        let mut sc = EScratch::new();
+        for l in [7usize, 15, 16, 17, 31, 32, 33, 48] {
+            for &x in &alpha {
+                if fw::should_stop() {
+                    return;
+                }
+                let mut text: Vec<u32> = (0..l).map(|i| 0x61 + (i % 26) as u32).collect();
+                text.push(x);
+                text.push(0x62);
+                for &src in &check.srcs {
+                    if crate::drive_enc::is_sur(x) && src == Src::Utf8 {
+                        continue;
+                    }
+                    for &repl in &check.repls {
+                        if repl && check.mappable_only_when_repl && (crate::drive_enc::is_sur(x) || !model_enc::mappable(algo, x)) {
+                            continue;
+                        }
+                        let m = if repl { 14 } else { 4 };
+                        for delta in 0..=8usize {
+                            let cap = (l + delta).saturating_sub(2).max(m);
+                            for caps in [vec![cap], vec![cap, 64], vec![cap + if repl { 10 } else { 0 }]] {
+                                for cuts in [vec![], vec![l], vec![l + 1]] {
+                                    for &sink in &check.sinks {
+                                        if sink == ESink::Vec && src == Src::Utf16 {
+                                            continue;
+                                        }
+                                        let mut h = EncHistory::simple(enc, src, repl, &text);
+                                        h.sink = sink;
+                                        h.caps = caps.clone();
+                                        h.cuts = cuts.clone();
+                                        h.align = (l + delta) & 15;
+                                        st.evals += 1;
+                                        st.class("ascii-run-then-character-at-the-output-limit");
+                                        if let Some((msg, sig)) = (check.verdict)(&h, &mut sc, st, true) {
+                                            if let Some(id) = fw::known_open_id(&sig) {
+                                                st.known_hit(id);
+                                            } else {
+                                                st.violations.push(violation_for(&h, check, msg, sig));
+                                                return;
+                                            }
+                                        }
+                                    }
+                                }
+                            }
+                        }
+                    }
+                }
+            }
+        }
+    });
+    total.merge(st);
+    total.exhaustive.push("stride family: ASCII run of 7/15/16/17/31/32/33/48 characters + each alphabet character + 'b' x capacities run length-2..+6 x cuts {none, before, after the character} x sources x sinks x modes".into());
+    if fw::should_stop() {
+        return total;
+    }
     let parts_per_enc = 2usize;
     let per_part = (check.random_per_enc / parts_per_enc as u64).max(1);
     let st = par_run(ctx, n_enc * parts_per_enc, |part, st| {
